@@ -23,7 +23,7 @@ CONSTANTS
   InitDescs <- GenInit
   Descs <- GenDescs
   GIdents <- GIdentsM
-  GActions = {"update", "reply", "changed", "error_update", "error_read"}
+  GActions = {"update", "reply", "changed", "error_update", "error_read", "error_change"}
   GLevels <- GLevelsT
   EmitOneIn = 2
   MaxCbs = 2
